@@ -189,6 +189,7 @@ func (d *SeqDriver) runOne(b *Behaviour) {
 				"invocationSequenceNumber": seq,
 			}
 			var sentUsage []any
+			lsnLo := d.lsn + 1
 			if len(st.Usage) > 0 {
 				var mu []any
 				for _, us := range st.Usage {
@@ -240,6 +241,8 @@ func (d *SeqDriver) runOne(b *Behaviour) {
 				sentUsage = []any{}
 			}
 			args["usage"] = sentUsage
+			// local sequence numbers of this request's containers: lsnLo..lsnHi (consecutive; empty when lsnHi < lsnLo)
+			args["lsnLo"], args["lsnHi"] = lsnLo, d.lsn
 			trig := st.Trig
 			if trig == nil {
 				trig = []string{}
